@@ -534,13 +534,13 @@ def run(tier, seed, jobs):
     firsts = [op for op in OPS if op[0] in ("reg", "badreg")]
     work = [(op, depth) for op in firsts]
     # deeper over the operations that change what the directory holds in the most different ways (split by the second operation to
-    # use all cores): one level from the two most productive starts in the quick tier, two levels from every valid registration in
+    # use all cores): one level from the two most productive starts in the quick tier, two levels from three valid registrations in
     # the thorough one
     core_ops = [op for op in OPS if op[0] in ("t", "del", "put", "updfrom") or op in CORE4]
     if tier == "quick":
         work += [((OPS[0], op2), 4, core_ops) for op2 in core_ops] + [((OPS[2], op2), 4, core_ops) for op2 in core_ops]
     else:
-        work += [((f, op2), 6, core_ops) for f in firsts if f[0] == "reg" and f[1] in ("e1", "e2") for op2 in core_ops][:400]
+        work += [((f, op2), 5, core_ops) for f in (OPS[0], OPS[2], OPS[3]) for op2 in core_ops]
     return core.prun(job, work, jobs)
 
 
